@@ -102,6 +102,10 @@ struct TrackedCO : Tracked {
 	TrackedCO &operator=(const TrackedCO &o) { Tracked::operator=(static_cast<const Tracked &>(o)); return *this; }
 };
 
+// Serial number given to a Tracked object when it was constructed (0: not alive). An operation that the standard type specifies as
+// "destroy the old value, construct a new one" (emplace) must leave an object whose serial is newer than the call.
+inline uint64_t birth_of(const Tracked *t) { auto &r = reg(); auto it = r.live_obj.find(t); return it == r.live_obj.end() ? 0 : it->second; }
+inline uint64_t birth_of(const int *) { return ~uint64_t(0); }
 inline int payload(int x) { return x; }
 inline int payload(const Tracked &t) { return t.get(); }
 
